@@ -91,6 +91,9 @@ func (ctx *Context) Parse(value string) error {
 	}
 	// 设置错误消息语言
 	SetParseErrorLanguage(ctx.Config.ParseErrorLanguage)
+	if verifOn {
+		verifYield(verifSiteLangSet)
+	}
 	_, err := p.parse(nil)
 	if err != nil {
 		ctx.Error = err
@@ -484,6 +487,9 @@ func (ctx *Context) evaluate() {
 		}
 
 		code := e.code[opIndex]
+		if verifOn && verifStep(ctx, opIndex, code, blockIndex, fstrBlockIndex, len(details), diceStateIndex) {
+			return
+		}
 		cIndex := fmt.Sprintf("%d/%d", opIndex+1, e.codeIndex)
 		if ctx.Config.PrintBytecode {
 			var subThread string
